@@ -7,7 +7,7 @@ from .c05 import corpus_requests
 RULE = ("`entryvcd <vars> <realmap> <body>` (generated VCD) and `entryfile <path>` (corpus files of all three formats): the file is loaded through "
         "read_header_from_file+read_body, read_header+read_body over Cursor and over BufReader<File> (each with multi_thread on/off, with and without "
         "a progress counter), over BufReader::with_capacity(c, ..) for c in 1, 2, 3, 5, 16, 17, 33, 64, 100, 509, 4096 (a token / section marker / block header may straddle a refill) "
-        "and through simple::read_with_options / read_from_reader; the option-taking entry points are run a second time with remove_scopes_with_empty_name=true (a group of its own) and every generated VCD a second time wrapped into an empty-named scope; GHW / FST / VCD files written from generated designs are included; hierarchy dump, body length, time table and every signal are "
+        "and through simple::read_with_options / read_from_reader; the option-taking entry points are run a second time with remove_scopes_with_empty_name=true (a group of its own) and every generated VCD a second time wrapped into an empty-named scope and a third time behind a `$comment` of 7..40 KB as first header command; GHW / FST / VCD files written from generated designs are included; hierarchy dump, body length, time table and every signal are "
         "compared pairwise (real code). For generated VCDs the Lean model answers with its three body-driver modes (mmap single, stream, multi). "
         "non-trivial = loads succeed; distinct = distinct requests")
 
